@@ -388,21 +388,18 @@ func (s *socket) MaybeUpgrade(transport transports.Transport) {
 		utils.ClearInterval(checkIntervalTimer.Load())
 		utils.ClearTimeout(upgradeTimeoutTimer.Load())
 
-		if transport != nil {
-			transport.RemoveListener("packet", onPacket)
-			transport.RemoveListener("close", onTransportClose)
-			transport.RemoveListener("error", onError)
-		}
+		transport.RemoveListener("packet", onPacket)
+		transport.RemoveListener("close", onTransportClose)
+		transport.RemoveListener("error", onError)
 		s.RemoveListener("close", onClose)
 	}
 
 	onError = func(err ...any) {
 		socket_log.Debug("client did not complete upgrade - %v", err[0])
 		cleanup()
-		if transport != nil {
-			transport.Close()
-			transport = nil
-		}
+		// Close is idempotent; the variable is shared by handlers that run on
+		// different goroutines and must not be cleared under them
+		transport.Close()
 	}
 
 	onTransportClose = func(...any) {
@@ -417,10 +414,8 @@ func (s *socket) MaybeUpgrade(transport transports.Transport) {
 	upgradeTimeoutTimer.Store(utils.SetTimeout(func() {
 		socket_log.Debug("client did not complete upgrade - closing transport")
 		cleanup()
-		if transport != nil {
-			if transport.ReadyState() == "open" {
-				transport.Close()
-			}
+		if transport.ReadyState() == "open" {
+			transport.Close()
 		}
 	}, s.server.Opts().UpgradeTimeout()))
 
